@@ -8,7 +8,11 @@ CONSTANT Width
 Vals == {"none", "x", "y"}
 Faults == {"none", "syntax-in-other-neighbour", "syntax-in-this-neighbour", "file-vanished", "parser-exception"}
 VARIABLES u, bytes
-Rows == [old1 : Vals, old2 : Vals, new1 : Vals, new2 : Vals, api : {"none", "x"}, up : BOOLEAN, fault : Faults, changed : BOOLEAN, noarib : BOOLEAN]
+Rows == [old1 : Vals, old2 : Vals, new1 : Vals, new2 : Vals, api : {"none", "x"}, up : BOOLEAN, fault : Faults, changed : BOOLEAN, noarib : BOOLEAN,
+         second : {"none", "later", "atonce"}]
+\* `second`: a second reload follows -- of the good new configuration when the first one failed (a failed reload must not
+\* break the next one), back to the old configuration when it succeeded -- once the first has been applied ("later") or
+\* at once, before the peer has looked at the first ("atonce")
 \* `noarib`: the neighbour is configured with adj-rib-out false (and route-refresh disabled, which it requires)
 \* `changed`: the reload also changes a session parameter (hold-time), so the peer is re-established instead of reconfigured
 GenInit == u \in Rows /\ bytes = <<>>
